@@ -97,3 +97,40 @@ M('C04', 'value-not-in-digest', ENT + 'protocol_message.rs',
   '            hasher.update(value.as_bytes());\n        }\n        hasher.finalize().into()', '            let _ = value;\n        }\n        hasher.finalize().into()', ['key and value'], 'part values not hashed')
 M('C04', 'signature-choice-flipped', COMMON + 'messages/certificate.rs',
   'signature: if certificate_message.genesis_signature.is_empty() {', 'signature: if !certificate_message.genesis_signature.is_empty() {', ['signature-choice'], 'wrong signature rebuilt')
+
+# ---------------------------------------------------------------- C18
+POOLF = 'internal/mithril-resource-pool/src/resource_pool.rs'
+M('C18', 'explicit-give-back-current-gen', POOLF,
+  '            .map(|resource_item| self.give_back_resource(resource_item, discriminant));',
+  '            .map(|resource_item| self.give_back_resource(resource_item, self.discriminant()?));', ['give_back:gen'], 'F9a comes back')
+M('C18', 'fullness-only-outside', POOLF,
+  """        resource.reset()?;
+        let mut resources = self
+            .resources
+            .lock()
+            .map_err(|_| ResourcePoolError::PoisonedLock)
+            .with_context(|| "Resource pool 'give_back_resource' failed locking Mutex")?;
+        if resources.len() >= self.size {
+            // Pool is full
+            return Ok(());
+        }
+""", """        resource.reset()?;
+        if self.count()? >= self.size {
+            // Pool is full
+            return Ok(());
+        }
+        let mut resources = self
+            .resources
+            .lock()
+            .map_err(|_| ResourcePoolError::PoisonedLock)
+            .with_context(|| "Resource pool 'give_back_resource' failed locking Mutex")?;
+""", ['fullness'], 'F9b comes back: fullness tested in its own lock region')
+M('C18', 'item-tagged-current', POOLF,
+  """        Ok(ResourcePoolItem {
+            resource_pool: self,
+            discriminant,
+            resource: Some(resource),
+        })""", """        let _ = discriminant;
+        Ok(ResourcePoolItem::new(self, resource))""", ['item:tag'], 'F9c comes back')
+M('C18', 'no-notify', POOLF,
+  '        self.not_empty.notify_one();\n', '', ['notify'], 'waiters never woken')
